@@ -104,8 +104,27 @@ func vfNewPKI() (*vfPKI, error) {
 
 // vfTLSNull dials with the given client settings and performs a NULL RPC.
 // Returns (completed, negotiated version, server cert serial).
+// vfTLSNoSNI makes vfTLSNull dial like a client that addresses the server by IP literal: no
+// server_name extension is sent; the chain is verified by hand against the same roots.
+var vfTLSNoSNI bool
+
 func vfTLSNull(port int, roots *x509.CertPool, minV, maxV uint16, cert *tls.Certificate, recordMarking bool) (bool, uint16, int64, error) {
 	cfg := &tls.Config{RootCAs: roots, ServerName: "localhost", MinVersion: minV, MaxVersion: maxV}
+	if vfTLSNoSNI {
+		cfg.ServerName = ""
+		cfg.InsecureSkipVerify = true
+		cfg.VerifyPeerCertificate = func(raw [][]byte, _ [][]*x509.Certificate) error {
+			if len(raw) == 0 {
+				return fmt.Errorf("no server certificate")
+			}
+			c, err := x509.ParseCertificate(raw[0])
+			if err != nil {
+				return err
+			}
+			_, err = c.Verify(x509.VerifyOptions{Roots: roots, KeyUsages: []x509.ExtKeyUsage{x509.ExtKeyUsageServerAuth}})
+			return err
+		}
+	}
 	if cert != nil {
 		// present this certificate whatever CAs the server says it accepts (a Go client
 		// would otherwise silently send none when the issuer is not on the list)
@@ -198,6 +217,7 @@ func TestVerif_C30(t *testing.T) {
 		}
 	}
 	vfC30Rotation(rec, pki)
+	vfC30Relisten(rec, pki)
 }
 
 func vfC30Start(tc *TLSConfig) (*AbsfsNFS, *Server, error) {
@@ -267,6 +287,67 @@ func vfC30Rotation(rec *evid.Rec, pki *vfPKI) {
 			vfC30RotationScenario(rec, pki, fetched, btw)
 		}
 	}
+}
+
+// vfC30Relisten: the listener is stopped and started again on the same AbsfsNFS (a new Server, or
+// Unexport/Export) after the CA file's content was replaced: the restarted listener verifies client
+// certificates against the CA that is configured NOW (the file's current content).
+func vfC30Relisten(rec *evid.Rec, pki *vfPKI) {
+	caPath := filepath.Join(pki.dir, "live-ca.pem")
+	b, _ := os.ReadFile(pki.ca1File)
+	os.WriteFile(caPath, b, 0600)
+	fs := refs.New()
+	n, err := New(fs, ExportOptions{TLS: &TLSConfig{Enabled: true, CertFile: pki.srvCert, KeyFile: pki.srvKey, CAFile: caPath, ClientAuth: tls.RequireAndVerifyClientCert, MinVersion: tls.VersionTLS12, MaxVersion: tls.VersionTLS13}})
+	if err != nil {
+		rec.Infra("relisten setup: " + err.Error())
+		return
+	}
+	vfQuiet(n)
+	defer n.Close()
+	start := func() *Server {
+		s, err := NewServer(ServerOptions{Hostname: "127.0.0.1", UseRecordMarking: true})
+		if err != nil {
+			rec.Set("relisten_start_error", err.Error())
+			return nil
+		}
+		s.logger.SetOutput(io.Discard)
+		s.SetHandler(n)
+		if err := s.Listen(); err != nil {
+			rec.Set("relisten_start_error", err.Error())
+			return nil
+		}
+		return s
+	}
+	s1 := start()
+	if s1 == nil {
+		rec.Inconclusive(1)
+		return
+	}
+	ok1, _, _, _ := vfTLSNull(s1.GetPort(), pki.roots, tls.VersionTLS12, tls.VersionTLS13, &pki.clientCA1, true)
+	bad1, _, _, _ := vfTLSNull(s1.GetPort(), pki.roots, tls.VersionTLS12, tls.VersionTLS13, &pki.clientCA2, true)
+	s1.Stop()
+	if !ok1 || bad1 {
+		rec.Distinct("relisten|first-listener-unexpected")
+		return // the matrix above judges a single listener
+	}
+	// the administrator replaces the CA: clients of CA2 from now on
+	vfWritePEM(caPath, "CERTIFICATE", pki.ca2.Raw)
+	s2 := start()
+	if s2 == nil {
+		rec.Inconclusive(1)
+		return
+	}
+	defer s2.Stop()
+	rec.Eval(2)
+	oldServed, _, _, _ := vfTLSNull(s2.GetPort(), pki.roots, tls.VersionTLS12, tls.VersionTLS13, &pki.clientCA1, true)
+	newServed, _, _, nerr := vfTLSNull(s2.GetPort(), pki.roots, tls.VersionTLS12, tls.VersionTLS13, &pki.clientCA2, true)
+	if oldServed {
+		rec.Violate("C30/client-without-ca-signed-certificate-served/restarted-listener-uses-the-replaced-ca", "the CA file was replaced (CA1 -> CA2) and the listener restarted on the same AbsfsNFS: a client whose certificate chains to the REPLACED CA1 is served", nil)
+	}
+	if !newServed {
+		rec.Violate("C30/client-of-the-configured-ca-refused/restarted-listener", fmt.Sprintf("after the CA file was replaced and the listener restarted, a client of the CA now in the file is refused: %v", nerr), nil)
+	}
+	rec.Distinct(fmt.Sprintf("relisten|old-ca-served=%v|new-ca-served=%v", oldServed, newServed))
 }
 
 func vfC30RotationScenario(rec *evid.Rec, pki *vfPKI, fetched, btw string) {
@@ -346,7 +427,17 @@ func vfC30RotationScenario(rec *evid.Rec, pki *vfPKI, fetched, btw string) {
 			rec.Violate("C30/rotation/ReloadCertificates-failed", name+": "+err.Error(), nil)
 			return
 		}
-		rec.Eval(1)
+		rec.Eval(2)
+		// a client that names the server (SNI) and one that dials the IP literal (no SNI): both
+		// are new handshakes and both see the reloaded certificate
+		vfTLSNoSNI = true
+		nsDone, _, nsSerial, nsErr := vfTLSNull(port, pki.roots, tls.VersionTLS12, tls.VersionTLS13, nil, true)
+		vfTLSNoSNI = false
+		if nsDone && int64(nsSerial) != w.serial {
+			rec.Violate("C30/rotation/new-handshake-presents-old-certificate/client-without-server-name", fmt.Sprintf("%s round %d: a client that sends no server_name (it dials the IP address) is presented serial %d after the reload, the reloaded certificate has %d", name, round+1, nsSerial, w.serial), nil)
+		} else if !nsDone {
+			rec.Violate("C30/rotation/handshake-fails-after-reload/client-without-server-name", fmt.Sprintf("%s round %d: %v", name, round+1, nsErr), nil)
+		}
 		done, _, serial, err = vfTLSNull(port, pki.roots, tls.VersionTLS12, tls.VersionTLS13, nil, true)
 		if !done {
 			rec.Violate("C30/rotation/handshake-fails-after-reload", fmt.Sprintf("%s round %d: %v", name, round+1, err), nil)
